@@ -48,7 +48,7 @@ class World:
     PROBES_EXPECTED = ["mixed-kinds", "const-task", "const-sum-task", "empty-sum-task", "zero-shot-task", "measurable-task", "no-measurable",
                        "over-delivery", "peer-fault", "tracker-runner", "tagged-runner", "symbolic-runner", "exact-step", "bind-step",
                        "empty-task-list", "disk-fault", "exact-zero-shot-task", "bind-shared-circuit", "duplicate-tasks",
-                       "bind-idle-upper-qubits", "recycled-result-object", "peer-declines-batches", "exact-after-in-place-reweighting"]
+                       "bind-idle-upper-qubits", "recycled-result-object", "peer-declines-batches", "exact-after-in-place-reweighting", "exact-after-operator-grown-in-place"]
 
     def gen_plan(self, seed, tier):
         r = random.Random(seed)
@@ -87,9 +87,9 @@ class World:
                                     t_["c"] = r.choice([0.0, 4e-9, -2e-9, 0.0])
                             spec.pop("simplify", None)
                     elif kind in ("const", "zero-shot-const"):
-                        spec = {"kind": r.choice(["term", "sum"]), "terms": [{"ops": {}, "c": r.choice([2.0, -1.5, 0.0, 7])}]}
+                        spec = {"kind": r.choice(["term", "sum"]), "terms": [{"ops": {}, "c": r.choice([2.0, -1.5, 0.0, 7, {"c": [0.0, -3.0]}, {"c": [1.5, 1.75]}])}]}
                     elif kind == "const-sum":
-                        spec = {"kind": "sum", "terms": [{"ops": {}, "c": r.choice([2.0, -1.0, 0.25])} for _ in range(r.randint(2, 3))]}
+                        spec = {"kind": "sum", "terms": [{"ops": {}, "c": r.choice([2.0, -1.0, 0.25, 0.25, {"c": [0.5, -0.25]}])} for _ in range(r.randint(2, 3))]}
                     else:
                         spec = {"kind": "sum", "terms": []}
                     shots = 0 if kind in ("zero-shot", "zero-shot-const") else r.choice([1, 2, 5, 13, 50])
@@ -109,9 +109,10 @@ class World:
                 for _ in range(r.randint(1, 4)):
                     c = gen.rand_circuit(r, n, r.randint(1, 6), wrappers=0.15, powexp=False, custom=0.0, exclude=["U3"], max_arity=2)
                     c["n"] = n
-                    tasks.append({"c": c, "op": gen.rand_pauli(r, n, r.randint(1, 3), ops="XYZ", constant=0.15, dup=0.1),
+                    tasks.append({"c": c, "op": gen.rand_pauli(r, n, r.randint(1, 3), ops=r.choice(["XYZ", "XYZ", "Z"]), constant=0.15, dup=0.1),
                                   "shots": r.choice([None, None, 0, 0, 1, 25])})
-                s = {"op": "exact", "args": {"tasks": tasks, "reweigh": r.random() < 0.4}}
+                s = {"op": "exact", "args": {"tasks": tasks, "reweigh": r.random() < 0.5, "grow": r.random() < 0.5,
+                                             "grow_with": [r.choice("XY"), r.randrange(n), r.choice([0.5, -1.25, 2.0])]}}
             else:
                 k = r.randint(1, 5)
                 s = {"op": "bind", "args": {"share": r.random() < 0.4, "tasks": [{"q": r.randrange(n), "gate": r.choice(["RX", "RY", "RZ", "PHASE"]),
@@ -376,6 +377,14 @@ class World:
                 if terms_:
                     terms_[0].coefficient = terms_[0].coefficient * 2 + 1
                     changed = True
+                if a.get("grow") and isinstance(terms_, list):
+                    # ... and extends it in place (the term list is a public attribute too): e.g. a transverse-field term
+                    # added to what was an all-Z operator
+                    from orquestra.quantum.operators import PauliTerm
+                    gw = a["grow_with"]
+                    terms_.append(PauliTerm({gw[1] % max(1, t_obj.circuit.n_qubits): gw[0]}, gw[2]))
+                    changed = True
+                    ctx.probe("exact-after-operator-grown-in-place")
             if changed:
                 want2 = []
                 for t_obj in tasks:
